@@ -286,7 +286,7 @@ func (ex *Exec) load(p PtrV, st *State) Val {
 	case rootElem:
 		name, lt := elemHeap(p.RootTy, path)
 		h := st.heap(name, ArraySort(ArraySort(sortOf(lt))))
-		base = Select(Select(h, SlArr(p.Slice)), Add(SlOff(p.Slice), p.Idx))
+		base = Select(Select(h, SlArr(p.Slice)), At(p.Slice, p.Idx))
 	}
 	r := selectPath(base, idxs)
 	r = ex.vc.define("ld", r)
@@ -342,7 +342,7 @@ func (ex *Exec) store(p PtrV, v Val, st *State) {
 		srt := ArraySort(ArraySort(sortOf(lt)))
 		h := st.heap(name, srt)
 		arr := SlArr(p.Slice)
-		pos := Add(SlOff(p.Slice), p.Idx)
+		pos := At(p.Slice, p.Idx)
 		row := Select(h, arr)
 		nv := storePath(Select(row, pos), idxs, sv)
 		nh := ex.vc.fresh(name, srt)
